@@ -76,6 +76,11 @@ def configs(tier, seed):
                 if kind != "idsm" and len(sq) > 4:
                     continue
                 out.append(dict(h="history", op=kind + lt + "r", key=f"history/{kind}/{lt}/repeat/" + ">".join(sq), kind=kind, lt=lt, seq=sq, n=3))
+    # a compute that raises (a parameter the distribution refuses) leaves nothing behind: computing again gives the same refusal,
+    # and after valid parameters are set the results are those of a fresh stock
+    for kind in KINDS:
+        for lt, bad in (("NormalLifetime", "mean"), ("FoldedNormalLifetime", "mean"), ("WeibullLifetime", "weibull_shape")):
+            out.append(dict(h="failed_compute", op=kind + lt, key=f"failed_compute/{kind}/{lt}/negative_{bad}", kind=kind, lt=lt, bad=bad, n=3))
     for lt in REAL:
         for order in ("ab", "ba"):
             out.append(dict(h="definition_system", op=lt, key=f"definition_system/{lt}/set_prms_order={order}", kind="idsm", lt=lt, n=3, order=order))
@@ -168,6 +173,32 @@ def run(cfg, w):
     shape = dims.shape
     if cfg["h"] == "definition_system":
         return _definition_system(cfg, w, dims)
+    if cfg["h"] == "failed_compute":
+        P_bad = _prms(w, lt, "p0")
+        neg = w.real("refused_value", default=-1.5)
+        w.assume(w.lt(neg, 0))
+        P_bad[cfg["bad"]] = neg
+        driver = w.arr("d0", shape)
+        model = getattr(lm, lt)(dims=dims, **P_bad)
+        st = dsm.build_stock(kind, dims, lifetime=model, **({"inflow": driver} if kind == "idsm" else {"stock": driver}))
+        outcomes = []
+        # (the second compute only on the inflow-driven model: a stock-driven one would divide by the entries of whatever
+        #  table a failed compute may have left behind)
+        for k in range(2 if kind == "idsm" else 1):
+            try:
+                st.compute()
+                outcomes.append("returned")
+            except ValueError as e:
+                outcomes.append("refused")
+        w.ob("first_compute_refuses_the_parameter", outcomes[0] == "refused", info=str(outcomes))
+        if len(outcomes) > 1:
+            w.ob("second_compute_gives_the_same_refusal", outcomes[1] == outcomes[0], info=f"{outcomes}: a compute that raised left a table behind")
+        w.ob("no_table_left_behind_by_the_failed_compute", st.lifetime_model._sf is None and st.lifetime_model._pdf is None)
+        P_ok = _prms(w, lt, "p1")
+        st.lifetime_model.set_prms(**P_ok)
+        st.compute()
+        _compare(w, "after_valid_parameters", _results(st), _fresh(kind, dims, lt, P_ok, driver))
+        return
     if cfg["h"] == "shared_lifetime":
         P0, P1 = _prms(w, lt, "p0"), _prms(w, lt, "p1")
         L = getattr(lm, lt)(dims=dims, **P0)
